@@ -9,15 +9,20 @@ Definition nodes_of (q : string) (c : cat) := filter (fun x => seqb (n_peer x) q
 Definition svcs_of (q : string) (c : cat) := filter (fun x => seqb (s_peer x) q) (svcs c).
 Definition chks_of (q : string) (c : cat) := filter (fun x => seqb (c_peer x) q) (chks c).
 
-(* the rows of peer q ("" = the local cluster), in table order *)
+(* the rows of peer q ("" = the local cluster), in table order; the mesh-topology table has no
+   peer in its key and belongs to the local cluster *)
 Definition same_rows (q : string) (c c' : cat) : Prop :=
-  nodes_of q c' = nodes_of q c /\ svcs_of q c' = svcs_of q c /\ chks_of q c' = chks_of q c.
+  nodes_of q c' = nodes_of q c /\ svcs_of q c' = svcs_of q c /\ chks_of q c' = chks_of q c
+  /\ (q = "" -> topo c' = topo c).
 
 Lemma same_rows_refl q c : same_rows q c c.
 Proof. repeat split. Qed.
 
 Lemma same_rows_trans q a b c : same_rows q a b -> same_rows q b c -> same_rows q a c.
-Proof. unfold same_rows. intros (A1 & A2 & A3) (B1 & B2 & B3). repeat split; congruence. Qed.
+Proof.
+  unfold same_rows. intros (A1 & A2 & A3 & A4) (B1 & B2 & B3 & B4).
+  split; [congruence|]. split; [congruence|]. split; [congruence|]. intros Hq. rewrite (B4 Hq). apply A4, Hq.
+Qed.
 
 (* ------------------------------------------------------------------ table operations *)
 
@@ -64,9 +69,6 @@ Proof.
   intros H. unfold same_rows, nodes_of, svcs_of, chks_of, put_chk.
   cbn [nodes svcs chks topo set_nodes set_svcs set_chks set_topo]. repeat split. apply (filter_tput_other chk_key c_peer chk_key_peer). exact H.
 Qed.
-
-Lemma set_topo_other q c t : same_rows q c (set_topo c t).
-Proof. repeat split. Qed.
 
 Lemma delete_check_other q c p n i : p <> q -> same_rows q c (delete_check c p n i).
 Proof.
@@ -131,15 +133,16 @@ Proof.
     + intros E; injection E as <-; assumption.
 Qed.
 
-Lemma update_topo_other q c s e : same_rows q c (update_topo c s e).
-Proof. unfold update_topo. apply set_topo_other. Qed.
+Lemma update_topo_other q c s e : q <> "" -> same_rows q c (update_topo c s e).
+Proof. intros Hq. unfold update_topo. split; [reflexivity|]. split; [reflexivity|]. split; [reflexivity|]. intros E. contradiction. Qed.
 
 Lemma ensure_service_other q c s c' : s_peer s <> q -> ensure_service c s = Ok c' -> same_rows q c c'.
 Proof.
   intros Hq. unfold ensure_service.
-  set (c1 := if is_connect s then _ else c).
+  set (c1 := if topo_applies s then _ else c).
   assert (H1 : same_rows q c c1).
-  { subst c1. destruct (is_connect s); [apply update_topo_other | apply same_rows_refl]. }
+  { subst c1. destruct (topo_applies s) eqn:T; [|apply same_rows_refl]. apply update_topo_other.
+    unfold topo_applies in T. apply andb_true_iff in T as [_ T]. apply seqb_eq in T. congruence. }
   assert (Hput : same_rows q c (put_svc c1 s)).
   { eapply same_rows_trans; [exact H1 | apply put_svc_other; exact Hq]. }
   destruct (get_node c1 (s_peer s) (s_node s)); [|discriminate].
